@@ -314,6 +314,11 @@ func rawM(f []string) string {
 		n, err = serializableorderedmap.New[uint16, uint32]().Decode(plainAPI, data)
 	case "4,8":
 		n, err = serializableorderedmap.New[uint32, uint64]().Decode(plainAPI, data)
+	case "0,0":
+		// zero-width keys: every round yields the same key, the second one is a duplicate
+		n, err = serializableorderedmap.New[struct{}, struct{}]().Decode(plainAPI, data)
+	case "0,1":
+		n, err = serializableorderedmap.New[[0]byte, uint8]().Decode(plainAPI, data)
 	default:
 		panic("unsupported omap instance")
 	}
@@ -1692,6 +1697,16 @@ func main() {
 		}
 		data, mut := mutate(rng, valid, valid, []prefixPos{{0, 4}})
 		b.emit(fmt.Sprintf("m %d %d %s", kw, vw, hx.Hex(data)), mut)
+	}
+	// zero-width key types: whatever the count says, the second empty key is refused as a duplicate
+	for _, kv := range []string{"0 0", "0 1"} {
+		for _, cnt := range []uint64{0, 1, 2, 3, 0xff, 0x10000, 1 << 24, 1<<31 - 1, 1 << 31, 1<<32 - 1} {
+			for _, tail := range []string{"", "00", "0700", "070809"} {
+				d := make([]byte, 4)
+				putLE(d, 0, 4, cnt)
+				b.emit("m "+kv+" "+hx.Hex(append(d, hx.UnHex("00" + tail)[1:]...)), "zero-width-keys")
+			}
+		}
 	}
 	for i := 0; i < 300*scale; i++ {
 		rng, _ := r.Rng.Fork()
